@@ -360,6 +360,141 @@ def run_lazy_persist(ctx, n):
             safe_call(idx.close)
 
 
+def _vary(rng, base, k):
+    """a copy of `base` (under key `k`) that differs from it in at most one serialised field"""
+    import copy
+
+    from dvc_data.hashfile.meta import Meta
+    from dvc_data.index.index import DataIndexEntry
+
+    e2 = DataIndexEntry(key=k, meta=base.meta, hash_info=base.hash_info, loaded=base.loaded)
+    which = rng.choice(["remote", "loaded", "meta", "hash", "isexec", "same"])
+    if which == "remote":
+        m = copy.copy(e2.meta) if e2.meta is not None else Meta()
+        m.remote = rng.choice(["r1", "r2", None])
+        e2.meta = m
+    elif which == "loaded":
+        e2.loaded = rng.choice([None, True, False])
+    elif which == "meta":
+        e2.meta = rand_meta(rng)
+    elif which == "hash":
+        e2.hash_info = rand_hi(rng)
+    elif which == "isexec":
+        m = copy.copy(e2.meta) if e2.meta is not None else Meta()
+        m.isexec = not m.isexec
+        e2.meta = m
+    return e2
+
+
+def _ent_json(e):
+    return None if e is None else {"meta": meta_to_json(e.meta), "hi": hi_to_json(e.hash_info), "loaded": e.loaded}
+
+
+def run_views(ctx, n):
+    """one SQLite-backed index written through several handles: the index that owns the file (DataIndex.open) and views of
+    its sub-trees (index.view(prefix), views of views, the trivial view(()) - the way index/collect.py hands its results out).
+    Every set / overwrite / delete of the history goes through some handle that covers the key (relative to that handle's
+    prefix); intermediate commits are issued on any handle; then commit() on the OWNING index, close, reopen: the reopened
+    index holds exactly the final entries under their absolute keys."""
+    from dvc_data.index.index import DataIndex, DataIndexEntry
+
+    rng = ctx.rng
+    root = ctx.mkdtemp()
+    for i in range(n):
+        # handles: 0 = the owner (prefix ()), the others are views; parent < child so that a view of a view is possible
+        prefixes, parents = [()], [None]
+        for _ in range(rng.randrange(1, 4)):
+            r = rng.random()
+            if r < 0.1:
+                par, rel = 0, ()  # view(()) - a second DataIndex over the very same trie object
+            elif r < 0.3 and len(prefixes) > 1:
+                par = rng.randrange(1, len(prefixes))
+                rel = tuple(gen.rand_name(rng) for _ in range(rng.randrange(1, 3)))
+            else:
+                par = 0
+                rel = tuple(gen.rand_name(rng) for _ in range(rng.randrange(1, 3)))
+            if any("/" in p for p in rel):
+                continue
+            prefixes.append(prefixes[par] + rel)
+            parents.append((par, rel))
+        # absolute keys: most of them under some handle's prefix (now and then the prefix itself: the view's root key)
+        keys = []
+        for _ in range(rng.randrange(1, 7)):
+            p = rng.choice(prefixes)
+            k = p + (() if p and rng.random() < 0.15 else rand_key(rng))
+            if k and not any("/" in x for x in k) and k not in keys:
+                keys.append(k)
+        if not keys:
+            continue
+        mode = rng.choice(["views", "views", "mixed", "mixed", "owner"])
+
+        def handle_for(k):
+            cov = [h for h, p in enumerate(prefixes) if k[: len(p)] == p]
+            if mode == "owner":
+                return 0
+            if mode == "views":
+                cov = [h for h in cov if h != 0] or cov
+            return rng.choice(cov)
+
+        hist, final = [], {}
+        for k in keys:
+            e = DataIndexEntry(key=k, meta=rand_meta(rng), hash_info=rand_hi(rng), loaded=rng.choice([None, True, False]))
+            hist.append(["set", handle_for(k), k, e, rng.random() < 0.2 and rng.randrange(len(prefixes))])
+            final[k] = e
+        for _ in range(rng.randrange(0, 5)):
+            k = rng.choice(keys)
+            cm = rng.random() < 0.2 and rng.randrange(len(prefixes))
+            if rng.random() < 0.2 and k in final:
+                hist.append(["del", handle_for(k), k, None, cm])
+                del final[k]
+            else:
+                base = final[k] if k in final else DataIndexEntry(key=k, meta=rand_meta(rng), hash_info=rand_hi(rng))
+                e2 = _vary(rng, base, k)
+                hist.append(["set", handle_for(k), k, e2, cm])
+                final[k] = e2
+        case = {"views": {"prefixes": [list(p) for p in prefixes],
+                          "made_from": [None if q is None else [q[0], list(q[1])] for q in parents], "writes_through": mode,
+                          "history": [[op, h, list(k), _ent_json(e), cm if cm is not False else None] for op, h, k, e, cm in hist]}}
+        ctx.case(case, nontrivial=len(keys) >= 2)
+        used = {h for _, h, _, _, _ in hist}
+        ctx.count("views:writes_through=%s" % mode)
+        ctx.count("views:handles_written=%s" % ("owner_only" if used == {0} else "views_only" if 0 not in used else "both"))
+        ctx.count("views:last_write_through=%s" % ("owner" if hist[-1][1] == 0 else "view"))
+        if any(q is not None and q[0] != 0 for q in parents):
+            ctx.count("views:view_of_view")
+
+        def f():
+            p = os.path.join(root, f"v{i}.sqlite")
+            idx = DataIndex.open(p)
+            hs = [idx]
+            try:
+                for q in parents[1:]:
+                    hs.append(hs[q[0]].view(q[1]))
+                for op, h, k, e, cm in hist:
+                    rel = k[len(prefixes[h]):]
+                    if op == "set":
+                        hs[h][rel] = DataIndexEntry(key=rel, meta=e.meta, hash_info=e.hash_info, loaded=e.loaded)
+                    else:
+                        del hs[h][rel]
+                    if cm is not False:
+                        hs[cm].commit()
+                idx.commit()
+            finally:
+                idx.close()
+            idx2 = DataIndex.open(p)
+            try:
+                return index_items(idx2)
+            finally:
+                idx2.close()
+
+        kind, v = safe_call(f)
+        exp = dict(sorted({("/".join(k) if k else "<root>"): proj(e) for k, e in final.items()}.items()))
+        ctx.oracle(kind == "ok" and v == exp, case,
+                   {"why": "SQLite-backed index written through views: after commit (on the owning index) / close / reopen it "
+                           "does not hold the final entries", "impl": v, "expected": exp,
+                    "missing": sorted(set(exp) - set(v)) if isinstance(v, dict) else None})
+
+
 def _entry_proj(e):
     h = e.hash_info
     return {"meta": _md(e.meta), "hash": [h.name, h.value] if h else None, "loaded": e.loaded}
@@ -376,7 +511,10 @@ def run(ctx):
         "entries with every combination of optional fields (None / default / falsy strings / zero sizes / '.dir' hashes / "
         "loaded in {None,True,False}), non-ASCII and odd key parts; indexes of 1-6 entries through write_json/read_json, "
         "write_db/read_db and the SQLite-backed index with set/overwrite-one-field/delete histories, commit, close, (often: another SQLite-backed index written under the same keys), reopen "
-        "(incl. the root key); listings written with metadata for md5 / md5-dos2unix / etag / checksum; SQLite-backed indexes with unloaded directory objects loaded on demand (iteration, listing, lookup, load) then committed, closed and reopened. "
+        "(incl. the root key); listings written with metadata for md5 / md5-dos2unix / etag / checksum; SQLite-backed indexes with unloaded directory objects loaded on demand (iteration, listing, lookup, load) then committed, closed and reopened; "
+        "SQLite-backed indexes written through several handles - the owning index and views of its sub-trees (index.view(prefix), views of views, "
+        "view(())), writes through views only / mixed / owner only, relative keys incl. the view's root key, intermediate commits on any handle - "
+        "then commit on the owning index, close, reopen, compared under absolute keys. "
         "non-trivial = entry has meta or hash / index has >= 2 entries; distinct = sha256 of the canonical case"
     )
     ctx.assumptions = ["Meta() and None both project to {} (an all-default Meta serialises to no field)",
@@ -385,6 +523,7 @@ def run(ctx):
     run_indexes(ctx, ctx.n(120, 1200))
     run_listing_with_meta(ctx, ctx.n(150, 1500))
     run_lazy_persist(ctx, ctx.n(40, 400))
+    run_views(ctx, ctx.n(100, 1000))
 
 
 def search(ctx):
@@ -392,6 +531,7 @@ def search(ctx):
     run_indexes(ctx, 1000)
     run_listing_with_meta(ctx, 1500)
     run_lazy_persist(ctx, 400)
+    run_views(ctx, 1000)
 
 
 def replay(ctx, payload):
